@@ -649,6 +649,132 @@ fn helpers(font: &FontRef, d: &mut Digest, only: Option<Tag>, rng: &mut Rng) {
             }
         }
     }
+    if want(b"CBLC") || want(b"CBDT") {
+        if let (Ok(cblc), Ok(cbdt)) = (font.cblc(), font.cbdt()) {
+            for size in cblc.bitmap_sizes().iter().take(8) {
+                for g in &sample_gids {
+                    match size.location(cblc.offset_data(), GlyphId::new(*g)) {
+                        Ok(loc) => match cbdt.data(&loc) {
+                            Ok(bd) => d.u64(match bd.content {
+                                read_fonts::tables::bitmap::BitmapContent::Data(_, b) => b.len() as u64,
+                                read_fonts::tables::bitmap::BitmapContent::Composite(c) => c.len() as u64 + 1_000_000,
+                            }),
+                            Err(e) => d.u64(err_code(&e)),
+                        },
+                        Err(e) => d.u64(err_code(&e)),
+                    }
+                }
+            }
+        }
+    }
+    if want(b"EBLC") || want(b"EBDT") {
+        if let (Ok(eblc), Ok(ebdt)) = (font.eblc(), font.ebdt()) {
+            for size in eblc.bitmap_sizes().iter().take(8) {
+                for g in &sample_gids {
+                    match size.location(eblc.offset_data(), GlyphId::new(*g)) {
+                        Ok(loc) => match ebdt.data(&loc) {
+                            Ok(bd) => d.u64(match bd.content {
+                                read_fonts::tables::bitmap::BitmapContent::Data(_, b) => b.len() as u64,
+                                read_fonts::tables::bitmap::BitmapContent::Composite(c) => c.len() as u64 + 1_000_000,
+                            }),
+                            Err(e) => d.u64(err_code(&e)),
+                        },
+                        Err(e) => d.u64(err_code(&e)),
+                    }
+                }
+            }
+        }
+    }
+    if want(b"VARC") {
+        if let Ok(varc) = font.varc() {
+            if let Ok(cov) = varc.coverage() {
+                for (nth, _gid) in cov.iter().enumerate().take(64) {
+                    match varc.glyph(nth) {
+                        Ok(g) => {
+                            for c in g.components().take(256) {
+                                match c {
+                                    Ok(_c) => d.u64(1),
+                                    Err(e) => {
+                                        d.u64(err_code(&e));
+                                        break;
+                                    }
+                                }
+                            }
+                        }
+                        Err(e) => d.u64(err_code(&e)),
+                    }
+                }
+            }
+            for i in 0..8 {
+                d.u64(varc.axis_indices(i).map(|p| p.iter().take(64).count() as u64).unwrap_or(9));
+            }
+        }
+    }
+    if want(b"GDEF") {
+        if let Ok(gdef) = font.gdef() {
+            if let Some(Ok(cd)) = gdef.glyph_class_def() {
+                for g in sample_gids.iter().take(24) {
+                    if *g <= 0xFFFF {
+                        d.u64(cd.get(read_fonts::types::GlyphId16::new(*g as u16)) as u64);
+                    }
+                }
+                d.u64(cd.iter().take(5000).count() as u64);
+            }
+            if let Some(Ok(cd)) = gdef.mark_attach_class_def() {
+                d.u64(cd.iter().take(5000).count() as u64);
+            }
+        }
+    }
+    if want(b"GPOS") {
+        if let Ok(gpos) = font.gpos() {
+            if let Ok(ll) = gpos.lookup_list() {
+                for l in ll.lookups().iter().take(64).flatten() {
+                    use read_fonts::tables::gpos::PositionSubtables;
+                    match l.subtables() {
+                        Ok(PositionSubtables::Single(st)) => {
+                            for t in st.iter().take(16).flatten() {
+                                let c = match &t {
+                                    read_fonts::tables::gpos::SinglePos::Format1(x) => x.coverage(),
+                                    read_fonts::tables::gpos::SinglePos::Format2(x) => x.coverage(),
+                                };
+                                if let Ok(c) = c {
+                                    d.u64(c.iter().take(5000).count() as u64);
+                                    for g in sample_gids.iter().take(8) {
+                                        if *g <= 0xFFFF {
+                                            d.u64(c.get(read_fonts::types::GlyphId16::new(*g as u16)).map(|x| x as u64 + 1).unwrap_or(0));
+                                        }
+                                    }
+                                }
+                            }
+                        }
+                        Ok(PositionSubtables::Pair(st)) => {
+                            for t in st.iter().take(16).flatten() {
+                                let c = match &t {
+                                    read_fonts::tables::gpos::PairPos::Format1(x) => x.coverage(),
+                                    read_fonts::tables::gpos::PairPos::Format2(x) => x.coverage(),
+                                };
+                                if let Ok(c) = c {
+                                    d.u64(c.iter().take(5000).count() as u64);
+                                }
+                            }
+                        }
+                        Ok(PositionSubtables::MarkToBase(st)) => {
+                            for t in st.iter().take(16).flatten() {
+                                if let Ok(c) = t.mark_coverage() {
+                                    d.u64(c.iter().take(5000).count() as u64);
+                                }
+                                if let Ok(c) = t.base_coverage() {
+                                    d.u64(c.iter().take(5000).count() as u64);
+                                }
+                            }
+                        }
+                        Ok(_) => d.u64(4),
+                        Err(e) => d.u64(err_code(&e)),
+                    }
+                }
+            }
+        }
+    }
     if want(b"CFF2") {
         if let Ok(cff2) = font.cff2() {
             for e in read_fonts::tables::postscript::dict::entries(cff2.top_dict_data(), None).take(256) {
